@@ -38,7 +38,7 @@ type ModifySigners struct {
 func unmarshalAndVerifyData(data []byte) (types.Signers, error) {
 	// newSigners := make(types.Signers, 0)
 	newSigners := &ModifySigners{}
-	err := json.Unmarshal(data, &newSigners)
+	err := json.Unmarshal(data, newSigners)
 	if err != nil {
 		return nil, err
 	}
